@@ -1,4 +1,232 @@
 import FV.Proofs.Strop
+/-
+  C15 — Grid orthogon decomposition finds exactly the single-trunk decompositions.
+
+  Property theorems only (helper lemmas live in `FV/Proofs/Strop/*.lean`).  The model is
+  `FV/Model/Strop.lean` (`Strop`, `StropInstance`, `strop_decomposition` of the FloorSet converter).
+  Grids are `List (List Bool)`; `cell m i j` is `m[i][j]`; `m.wf` are the constructor's assertions
+  (at least one row, rows of equal non-zero length).
+
+  Not proved (tied by the correspondence run and the shoelace check of the harness): that the even–odd
+  point-in-polygon test marks exactly the cells inside an arbitrary simple orthogonal vertex list.
+-/
 namespace FV.C15
-theorem stub_tmp : True := trivial
+open FV FV.Strop
+set_option linter.unusedVariables false
+
+/-! ### the specification -/
+
+/-- `b` is a non-empty index rectangle lying against the north side of `T`, within `T`'s column extent. -/
+def AbutsN (T b : SRect) : Prop :=
+  b.rows.low ≤ b.rows.high ∧ b.rows.high + 1 = T.rows.low ∧
+  T.cols.low ≤ b.cols.low ∧ b.cols.low ≤ b.cols.high ∧ b.cols.high ≤ T.cols.high
+def AbutsS (T b : SRect) : Prop :=
+  b.rows.low ≤ b.rows.high ∧ b.rows.low = T.rows.high + 1 ∧
+  T.cols.low ≤ b.cols.low ∧ b.cols.low ≤ b.cols.high ∧ b.cols.high ≤ T.cols.high
+def AbutsE (T b : SRect) : Prop :=
+  b.cols.low ≤ b.cols.high ∧ b.cols.low = T.cols.high + 1 ∧
+  T.rows.low ≤ b.rows.low ∧ b.rows.low ≤ b.rows.high ∧ b.rows.high ≤ T.rows.high
+def AbutsW (T b : SRect) : Prop :=
+  b.cols.low ≤ b.cols.high ∧ b.cols.high + 1 = T.cols.low ∧
+  T.rows.low ≤ b.rows.low ∧ b.rows.low ≤ b.rows.high ∧ b.rows.high ≤ T.rows.high
+
+/-- a branch abuts the trunk on one side within the trunk's extent. -/
+def Abuts (T b : SRect) : Prop := AbutsN T b ∨ AbutsS T b ∨ AbutsE T b ∨ AbutsW T b
+
+/-- `T` (trunk) and `bs` (branches) are a single-trunk decomposition of the 1-cells of `m`:
+the trunk is a non-empty index rectangle, every branch is a rectangle abutting the trunk on one side within the
+trunk's extent, and trunk and branches partition the 1-cells (every 1-cell is covered, nothing else is, no cell
+is covered twice).  In particular the trunk is an all-ones rectangle of the grid (`decomposes_trunk_ones`). -/
+structure Decomposes (m : Grid) (T : SRect) (bs : List SRect) : Prop where
+  trunk_nonempty : T.rows.low ≤ T.rows.high ∧ T.cols.low ≤ T.cols.high
+  abuts : ∀ b ∈ bs, Abuts T b
+  cover : ∀ i j, cell m i j = true ↔ (T.mem i j = true ∨ ∃ b ∈ bs, b.mem i j = true)
+  disjoint : (T :: bs).Pairwise fun a b => ∀ i j, ¬ (a.mem i j = true ∧ b.mem i j = true)
+
+/-! ### soundness -/
+
+/-- the trunk of a decomposition is an all-ones rectangle inside the grid. -/
+theorem decomposes_trunk_ones (m : Grid) (hwf : m.wf = true) (T : SRect) (bs : List SRect) (h : Decomposes m T bs) :
+    (∀ i j, T.mem i j = true → cell m i j = true) ∧ T.rows.high < m.nrows ∧ T.cols.high < m.ncols := by
+  have hones : ∀ i j, T.mem i j = true → cell m i j = true := fun i j hm => (h.cover i j).2 (Or.inl hm)
+  have hm : T.mem T.rows.high T.cols.high = true :=
+    (mem_iff T _ _).2 ⟨h.trunk_nonempty.1, Nat.le_refl _, h.trunk_nonempty.2, Nat.le_refl _⟩
+  exact ⟨hones, cell_lt_rows (hones _ _ hm), cell_lt_cols hwf (hones _ _ hm)⟩
+
+/-- **instance_sound** — every instance the model offers is a single-trunk decomposition, with every branch on
+the side it is filed under. -/
+theorem instance_sound (m : Grid) (insts : List Instance) (h : strop m = some insts) (s : Instance) (hs : s ∈ insts) :
+    Decomposes m s.trunk s.branches ∧
+    (∀ b ∈ s.north, AbutsN s.trunk b) ∧ (∀ b ∈ s.south, AbutsS s.trunk b) ∧
+    (∀ b ∈ s.east, AbutsE s.trunk b) ∧ (∀ b ∈ s.west, AbutsW s.trunk b) := by
+  unfold strop at h
+  split at h
+  · rename_i hwf
+    cases h
+    obtain ⟨T, hT, hmk⟩ := (mem_instances m s).1 hs
+    obtain ⟨e0, hv, hcover, hpw, hN, hS, hE, hW⟩ := instance_facts m hwf T hT s hmk
+    subst e0
+    refine ⟨⟨⟨hv.rows_le, hv.cols_le⟩, ?_, hcover, hpw⟩, hN, hS, hE, hW⟩
+    intro b hb
+    simp only [Instance.branches, List.mem_append] at hb
+    rcases hb with ((hb | hb) | hb) | hb
+    · exact Or.inl (hN b hb)
+    · exact Or.inr (Or.inl (hS b hb))
+    · exact Or.inr (Or.inr (Or.inl (hE b hb)))
+    · exact Or.inr (Or.inr (Or.inr (hW b hb)))
+  · cases h
+
+/-- `rectangles()` yields the trunk first, then the branches. -/
+theorem rectangles_trunk_first (s : Instance) : s.rectangles = s.trunk :: s.branches ∧
+    s.rectanglesWhich [] = some s.rectangles ∧ s.rectanglesWhich ['T'] = some [s.trunk] ∧
+    s.rectanglesWhich ['B'] = some s.branches := by
+  refine ⟨rfl, ?_, ?_, ?_⟩ <;> simp [Instance.rectanglesWhich, Instance.rectangles, Instance.branches]
+
+/-- a positive verdict is backed by a decomposition. -/
+theorem isStrop_sound (m : Grid) (hwf : m.wf = true) (h : isStrop m = true) : ∃ T bs, Decomposes m T bs := by
+  unfold isStrop at h
+  cases hi : instances m with
+  | nil => rw [hi] at h; simp at h
+  | cons s l =>
+    have hs : s ∈ instances m := by rw [hi]; exact List.mem_cons_self
+    have hstrop : strop m = some (instances m) := by simp [strop, hwf]
+    exact ⟨s.trunk, s.branches, (instance_sound m _ hstrop s hs).1⟩
+
+/-! ### completeness -/
+
+/-- a decomposition in the sense of the specification is a `ValidTrunk` (the brute-force reading used by the
+proofs and by the harness oracle: every 1-cell lies in the cross of the trunk and is joined to it by ones). -/
+theorem decomposes_validTrunk (m : Grid) (T : SRect) (bs : List SRect) (h : Decomposes m T bs) : ValidTrunk m T :=
+  validTrunk_of_cover m T bs h.trunk_nonempty.1 h.trunk_nonempty.2
+    (fun b hb => by
+      rcases h.abuts b hb with h | h | h | h
+      · exact Or.inl h
+      · exact Or.inr (Or.inl h)
+      · exact Or.inr (Or.inr (Or.inl h))
+      · exact Or.inr (Or.inr (Or.inr h)))
+    h.cover
+
+/-- conversely a `ValidTrunk` carries a decomposition (the one the histograms produce). -/
+theorem validTrunk_decomposes (m : Grid) (hwf : m.wf = true) (T : SRect) (hv : ValidTrunk m T) :
+    ∃ bs, Decomposes m T bs := by
+  have hcount := (valid_iff_count m hwf T hv.rows_le hv.cols_le hv.ones).2 hv
+  obtain ⟨s, hs⟩ := mkInstance_isSome m T hcount
+  obtain ⟨e0, _, hcover, hpw, hN, hS, hE, hW⟩ := instance_facts' m hwf T hv.rows_le hv.cols_le hv.ones s hs
+  refine ⟨s.branches, ⟨hv.rows_le, hv.cols_le⟩, ?_, hcover, hpw⟩
+  intro b hb
+  simp only [Instance.branches, List.mem_append] at hb
+  rcases hb with ((hb | hb) | hb) | hb
+  · exact Or.inl (hN b hb)
+  · exact Or.inr (Or.inl (hS b hb))
+  · exact Or.inr (Or.inr (Or.inl (hE b hb)))
+  · exact Or.inr (Or.inr (Or.inr (hW b hb)))
+
+/-- **extend_valid** — the trunk of a decomposition can be grown to a maximal all-ones rectangle (`Maximal`: no
+full line of ones abuts it on any side) that is again the trunk of a decomposition. -/
+theorem extend_valid (m : Grid) (hwf : m.wf = true) (T : SRect) (bs : List SRect) (h : Decomposes m T bs) :
+    ∃ T' bs', SubRect T T' ∧ Maximal m T' ∧ Decomposes m T' bs' := by
+  obtain ⟨T', hv', hmax, hsub⟩ := exists_maximal m hwf T (decomposes_validTrunk m T bs h)
+  obtain ⟨bs', hd⟩ := validTrunk_decomposes m hwf T' hv'
+  exact ⟨T', bs', hsub, hmax, hd⟩
+
+/-- **maximal_is_candidate** — a maximal trunk of a decomposition survives both in-place pruning passes of
+`_get_trunks_matrix` on the matrix and on its transpose, the intersection of the two sets and the corner test:
+it is one of the potential trunks. -/
+theorem maximal_is_candidate (m : Grid) (hwf : m.wf = true) (T : SRect) (bs : List SRect) (h : Decomposes m T bs)
+    (hmax : Maximal m T) : T ∈ potentialTrunks m :=
+  maximal_in_potentialTrunks m hwf T (decomposes_validTrunk m T bs h) hmax
+
+/-- what the two in-place pruning passes leave in the table: exactly the row spans (intersection of the single
+runs of rows `r..c`) that change when a row is added above or below. -/
+theorem trunksMatrix_iff (M : Grid) (T : SRect) : T ∈ trunksMatrix M ↔
+    T.rows.low ≤ T.rows.high ∧ T.rows.high < M.length ∧
+    span M T.rows.low (T.rows.high - T.rows.low) = some T.cols ∧
+    (T.rows.high + 1 < M.length → span M T.rows.low (T.rows.high + 1 - T.rows.low) ≠ some T.cols) ∧
+    (1 ≤ T.rows.low → span M (T.rows.low - 1) (T.rows.high - (T.rows.low - 1)) ≠ some T.cols) := by
+  rw [mem_trunksMatrix]
+  constructor
+  · rintro ⟨r, c, I, h1, h2, h3, rfl⟩
+    exact ⟨h1, h2, (finalTable_get M r c I h1 h2).1 h3⟩
+  · rintro ⟨h1, h2, h3⟩
+    exact ⟨T.rows.low, T.rows.high, T.cols, h1, h2, (finalTable_get M _ _ _ h1 h2).2 h3, rfl⟩
+
+/-- **isStrop_complete** — whenever a single-trunk decomposition exists, the model reports one. -/
+theorem isStrop_complete (m : Grid) (hwf : m.wf = true) (h : ∃ T bs, Decomposes m T bs) : isStrop m = true := by
+  obtain ⟨T, bs, hd⟩ := h
+  exact isStrop_of_validTrunk m hwf T (decomposes_validTrunk m T bs hd)
+
+/-- an observation about the code: the cell-count validity test of `StropInstance` never rejects a potential trunk
+(single-run rows, single-run columns and empty corners already force a valid trunk) — every potential trunk
+becomes an offered instance. -/
+theorem potential_trunk_is_instance (m : Grid) (hwf : m.wf = true) (T : SRect) (hT : T ∈ potentialTrunks m) :
+    ∃ s ∈ instances m, s.trunk = T := by
+  obtain ⟨s, hs⟩ := potentialTrunk_isSome m hwf T hT
+  exact ⟨s, (mem_instances m s).2 ⟨T, hT, hs⟩, (mkInstance_some m T s hs).2.1⟩
+
+/-- the verdict is exact. -/
+theorem isStrop_iff (m : Grid) (hwf : m.wf = true) : isStrop m = true ↔ ∃ T bs, Decomposes m T bs :=
+  ⟨isStrop_sound m hwf, isStrop_complete m hwf⟩
+
+/-! ### areas through the coordinate lists -/
+
+section area
+variable {α : Type} [Field α]
+
+/-- **rects_area** — the rectangles of an offered instance, mapped through coordinate lists (`X j` the j-th
+x-coordinate ascending, `Y i` the i-th y-coordinate descending), have together the area of the 1-cells. -/
+theorem rects_area (m : Grid) (insts : List Instance) (h : strop m = some insts) (s : Instance) (hs : s ∈ insts)
+    (X Y : ℕ → α) : (s.rectangles.map fun r => rectArea (coordRect X Y r)).sum = gridArea m X Y := by
+  unfold strop at h
+  split at h
+  · rename_i hwf
+    cases h
+    exact instance_area m hwf s hs X Y
+  · cases h
+
+end area
+
+section area_decomposition
+variable {α : Type} [Field α] [LinearOrder α]
+
+/-- the same for every answer `strop_decomposition` can give: Σ w·h is the area of the cells whose centre the
+point-in-polygon test puts inside. -/
+theorem decomposition_area (zero : α) (vs : List (α × α)) (cands : List (List (α × α × α × α)))
+    (h : stropDecomposition zero vs = some cands) (c : List (α × α × α × α)) (hc : c ∈ cands) :
+    (c.map rectArea).sum =
+      gridArea (gridOfVertices vs).2.2 (fun j => (gridOfVertices vs).1.getD j zero)
+        (fun i => (gridOfVertices vs).2.1.getD i zero) := by
+  unfold stropDecomposition at h
+  simp only at h
+  cases hst : strop (gridOfVertices vs).2.2 with
+  | none => simp [hst] at h
+  | some insts =>
+    simp only [hst] at h
+    split at h
+    · cases h
+    · cases h
+      obtain ⟨s, hs, rfl⟩ := List.mem_map.1 hc
+      rw [List.map_map]
+      exact rects_area _ insts hst s hs _ _
+
+end area_decomposition
+
+/-! ### non-vacuity: concrete grids -/
+
+/-- the plus shape: two decompositions (vertical and horizontal trunk). -/
+def plus : Grid := [[false, true, false], [true, true, true], [false, true, false]]
+/-- the three-step staircase of the module docstring: not a STrOP. -/
+def stairs : Grid := [[true, true, false], [false, true, true], [false, false, true]]
+
+example : plus.wf = true := by decide
+example : (instances plus).length = 2 := by decide +kernel
+example : isStrop plus = true := by decide +kernel
+example : isStrop stairs = false := by decide +kernel
+example : ∃ T bs, Decomposes plus T bs := isStrop_sound plus (by decide) (by decide +kernel)
+/-- the hypothesis of `isStrop_complete` fails exactly where the verdict is negative. -/
+example : ¬ ∃ T bs, Decomposes stairs T bs := fun h => by
+  have := isStrop_complete stairs (by decide) h
+  revert this; decide +kernel
+/-- the in-place order of the two pruning passes matters on this grid: four row spans survive. -/
+example : (trunksMatrix stairs).length = 4 := by decide +kernel
+
 end FV.C15
